@@ -5,6 +5,16 @@ ROOT = os.path.dirname(os.path.dirname(os.path.abspath(__file__)))
 PROPS = [json.loads(l)["id"] for l in open(os.path.join(ROOT, "properties.jsonl"))]
 
 CLAIMED = {
+ "C03": dict(
+   text="Coq theorems (Props/C03.v) over the Gallina model of Vars::vars_cmp / to_new_vars / to_union_vars / to_combined_vars and of +,-,*,/,% and == on Dual and Dual2: for ANY two well-formed operands over ANY ordered variable lists (permutations, subsets, supersets, disjoint, overlapping, empty), shared or unshared storage, the result is well-formed (duplicate-free names, derivative arrays of matching shape), carries exactly the union of the operands' names, and its value, derivative per name and half-Hessian per pair of names are the textbook functions of the operands' (refinement); hence operands equal by value and per-name derivatives give equal results whatever their layouts (layout independence); == holds exactly when value and every per-name derivative agree (missing variable = zero derivative). Tied to rust/dual by an EXHAUSTIVE enumeration of layouts on a 3-letter alphabet x operators x kinds on every run.",
+   note="Theorems over R (stdlib real axioms through the NumR instance). Arc::ptr_eq is modelled by a boolean with the side condition that sharing implies equal lists; IndexSet by duplicate-free lists. For Dual2 division the refinement theorem states well-formedness and the name union; its value/derivative formulas are covered by the layout-independence theorem (d2div_spec).",
+   tech="Coq proof (refinement of the concrete layout code to value/derivative-per-name, list reasoning) + exhaustive layout enumeration model-vs-code",
+   ref="DESIGN.md §4 C03"),
+ "C17": dict(
+   text="Coq theorems (Props/C17.v): for every well-formed Dual/Dual2 and every list of distinct requested names (any order, present or absent), gradient1 returns exactly the per-name derivatives in the order asked with zeros for absent names (fast path = lookup path), gradient2 returns twice the stored half-Hessian entries by name, gradient1_manifold returns Dual2 numbers on the requested names whose values are the first derivatives and whose own gradients are the matching Hessian rows (zero rows for absent names), and the product rule applied to manifolds reproduces the second derivatives of a product. Tied to dual.rs:272-374 by an EXHAUSTIVE enumeration of stored orders x requested lists on every run.",
+   note="Theorems over R. The exhaustive correspondence found a genuine defect (absent names got an all-ones gradient in gradient1_manifold), repaired by fix commit 8aaa4c8 (known_findings.json); the model states the repaired behaviour.",
+   tech="Coq proof (list/lookup reasoning over the concrete arrays, ring) + exhaustive stored-order x requested-list enumeration model-vs-code",
+   ref="DESIGN.md §4 C17"),
  "C01": dict(
    text="Coq theorems (Props/C01.v) over the Gallina model of Dual and of all 23 operator variants of dual_ops/*.rs (dual∘dual, dual∘float, float∘dual, owned/borrowed neg and pow, exp, log, norm_cdf, inv_norm_cdf, abs): for EVERY expression tree, every environment in the differentiable domain and either Arc-sharing behaviour, the dual evaluation is well-formed, its value equals the plain evaluation and its coefficient for every variable name is the partial derivative (Coquelicot is_derive) of the plain evaluation; gradient1 reads those coefficients back in the order asked; float operands in either position equal promotion to a constant; owned and borrowed variants agree. Tied to rust/dual on every run by a seeded differential run (random trees, all variants) of the same Gallina terms at T := float.",
    note="Theorems are over the classical reals (Base/NumR.v): IEEE rounding, libm exp/ln/powf and statrs cdf/inverse_cdf are modelled by the real functions (powf total as coded in Rpowf; the inverse cdf defined by ClassicalEpsilon as the inverse of the cdf, its derivative PROVED via the inverse-function theorem of Ranalysis5). Axioms: sig_not_dec, sig_forall_dec, functional_extensionality_dep, classic, constructive_indefinite_description (all stdlib). Model hand-written, tied by correspondence (harness/src/dual.rs, Base/NumFloat.v under vm_compute, tolerance 1e-8).",
